@@ -223,8 +223,8 @@ class Cascade:
             if not self.silent:
                 print(f"  📍 Stage {i+1}/{len(self._stages)}: {stage.name}")
 
-            # Check checkpoint gate
-            if stage.checkpoint:
+            # Check checkpoint gate (any checkpoint, whatever the truth value of the gate object itself)
+            if stage.checkpoint is not None:
                 try:
                     if not stage.checkpoint(current_signal):
                         if not self.silent:
